@@ -266,7 +266,35 @@ pub fn entry_fields(acc: &mut Acc, h: &History, base: &Baseline, prm: &Params) {
     let ctx = entry_ctx(h);
     for (pos, e) in h.entries.iter().enumerate() {
         let muts = mutate::entry_muts(e, &prm.pos, &ctx);
-        for m in muts {
+        // evaluate in parallel, record in order
+        let verdicts: Vec<Option<(verify::Verdict, Option<verify::Verdict>)>> = muts
+            .par_iter()
+            .map(|m| match &m.value {
+                Err(_) => None,
+                Ok(me) if me == e => None,
+                Ok(me) => {
+                    let mut material = h.entries.clone();
+                    material[pos] = me.clone();
+                    let v = verify::verify(h, base, &material, &Opts::default());
+                    let v2 = if m.field == "event_kind" {
+                        // also offer the material to the append API its (altered) kind does not select
+                        Some(verify::verify(
+                            h,
+                            base,
+                            &material,
+                            &Opts {
+                                alt_route: true,
+                                ..Opts::default()
+                            },
+                        ))
+                    } else {
+                        None
+                    };
+                    Some((v, v2))
+                }
+            })
+            .collect();
+        for (m, res) in muts.iter().zip(verdicts) {
             let posl = format!("entry#{pos}({}@{})", wl_tag(e.worldline_id), e.worldline_tick.as_u64());
             let case = Case {
                 h,
@@ -276,8 +304,8 @@ pub fn entry_fields(acc: &mut Acc, h: &History, base: &Baseline, prm: &Params) {
                 kind: m.kind,
                 detail: &m.detail,
             };
-            match &m.value {
-                Err(name) => {
+            match (&m.value, res) {
+                (Err(name), _) => {
                     // the public constructor refused to build the altered value: typed error
                     acc.evals += 1;
                     *acc.operators.entry(format!("entry:{}", m.kind)).or_insert(0) += 1;
@@ -285,30 +313,13 @@ pub fn entry_fields(acc: &mut Acc, h: &History, base: &Baseline, prm: &Params) {
                     acc.outcome(&format!("typed_error:construct:{name}"));
                     acc.count("rejected_with_typed_error", 1);
                 }
-                Ok(me) => {
-                    if me == e {
-                        acc.count("noop_mutants_skipped", 1);
-                        continue;
-                    }
-                    let mut material = h.entries.clone();
-                    material[pos] = me.clone();
-                    let v = verify::verify(h, base, &material, &Opts::default());
+                (Ok(_), None) => acc.count("noop_mutants_skipped", 1),
+                (Ok(_), Some((v, v2))) => {
                     if acc.samples.len() < 4 && pos == 0 && (m.field == "expected.commit_hash" || m.field == "commit_global_tick") {
                         acc.sample(json!({"case": case.json(), "errors": v.errors, "ok_checks": v.ok_checks, "diffs": v.diffs}));
                     }
                     classify(acc, &case, &v, Mode::SingleField);
-                    if m.field == "event_kind" {
-                        // also offer the entry to the append API its (altered) kind does not select
-                        let v2 = verify::verify(
-                            h,
-                            base,
-                            &material,
-                            &Opts {
-                                alt_route: true,
-                                ..Opts::default()
-                            },
-                        );
-                        // with alt_route every entry is mis-routed; only the first append matters
+                    if let Some(v2) = v2 {
                         let case2 = Case {
                             h,
                             phase: "entry",
@@ -348,72 +359,63 @@ pub fn entry_fields(acc: &mut Acc, h: &History, base: &Baseline, prm: &Params) {
 // structural
 // -------------------------------------------------------------------------------------------------
 
+struct StructJob {
+    material: Vec<ProvenanceEntry>,
+    allow_alt: bool,
+    prefix_ok: bool,
+    pos: String,
+    field: &'static str,
+    kind: &'static str,
+    detail: String,
+    mode: Mode,
+}
+
 pub fn structural(acc: &mut Acc, h: &History, base: &Baseline, all: &[History], idx: usize, prm: &Params) {
     let n = h.entries.len();
     let same_wl = |i: usize, j: usize| h.entries[i].worldline_id == h.entries[j].worldline_id;
+    let mut jobs: Vec<StructJob> = Vec::new();
+    let mut job = |material: Vec<ProvenanceEntry>, allow_alt: bool, prefix_ok: bool, pos: String, field: &'static str, kind: &'static str, detail: String, mode: Mode| {
+        jobs.push(StructJob { material, allow_alt, prefix_ok, pos, field, kind, detail, mode })
+    };
     // swap two entries (same worldline: order matters; different worldlines: a mere re-ordering)
     for i in 0..n {
         for j in (i + 1)..n {
             let mut m = h.entries.clone();
             m.swap(i, j);
-            let v = verify::verify(h, base, &m, &Opts::default());
             let field = if same_wl(i, j) { "entries(same-worldline)" } else { "entries(cross-worldline-order)" };
             let d = format!("{i}<->{j}");
-            let case = Case { h, phase: "structure", pos: d.clone(), field, kind: "swap", detail: &d };
-            classify(acc, &case, &v, Mode::Structural);
+            job(m, false, false, d.clone(), field, "swap", d, Mode::Structural);
         }
     }
     for i in 0..n {
+        let d = format!("{i}");
         // duplicate right after the original
         let mut m = h.entries.clone();
         m.insert(i + 1, h.entries[i].clone());
-        let v = verify::verify(h, base, &m, &Opts::default());
-        let d = format!("{i}");
-        let case = Case { h, phase: "structure", pos: d.clone(), field: "entries", kind: "dup", detail: &d };
-        classify(acc, &case, &v, Mode::Structural);
+        job(m, false, false, d.clone(), "entries", "dup", d.clone(), Mode::Structural);
         // duplicate at the end of the whole material
         let mut m = h.entries.clone();
         m.push(h.entries[i].clone());
-        let v = verify::verify(h, base, &m, &Opts::default());
-        let case = Case { h, phase: "structure", pos: d.clone(), field: "entries", kind: "dup-at-end", detail: &d };
-        classify(acc, &case, &v, Mode::Structural);
+        job(m, false, false, d.clone(), "entries", "dup-at-end", d.clone(), Mode::Structural);
         // drop one entry (gap unless it was a worldline's last)
         let mut m = h.entries.clone();
         m.remove(i);
         let is_last_of_wl = !h.entries[i + 1..].iter().any(|e| e.worldline_id == h.entries[i].worldline_id);
-        let v = verify::verify(
-            h,
-            base,
-            &m,
-            &Opts {
-                prefix_ok: is_last_of_wl,
-                ..Opts::default()
-            },
+        job(
+            m,
+            false,
+            is_last_of_wl,
+            d.clone(),
+            if is_last_of_wl { "entries(worldline-tip)" } else { "entries(inner)" },
+            "drop",
+            d.clone(),
+            if is_last_of_wl { Mode::Truncation } else { Mode::Structural },
         );
-        let case = Case {
-            h,
-            phase: "structure",
-            pos: d.clone(),
-            field: if is_last_of_wl { "entries(worldline-tip)" } else { "entries(inner)" },
-            kind: "drop",
-            detail: &d,
-        };
-        classify(acc, &case, &v, if is_last_of_wl { Mode::Truncation } else { Mode::Structural });
     }
     // truncate at every length
     for k in 0..n {
-        let v = verify::verify(
-            h,
-            base,
-            &h.entries[..k],
-            &Opts {
-                prefix_ok: true,
-                ..Opts::default()
-            },
-        );
         let d = format!("keep {k} of {n}");
-        let case = Case { h, phase: "structure", pos: d.clone(), field: "entries", kind: "truncate", detail: &d };
-        classify(acc, &case, &v, Mode::Truncation);
+        job(h.entries[..k].to_vec(), false, true, d.clone(), "entries", "truncate", d, Mode::Truncation);
     }
     // transplant from another worldline of the same history
     for i in 0..n {
@@ -421,10 +423,8 @@ pub fn structural(acc: &mut Acc, h: &History, base: &Baseline, all: &[History], 
             if i != j && !same_wl(i, j) {
                 let mut m = h.entries.clone();
                 m[i] = h.entries[j].clone();
-                let v = verify::verify(h, base, &m, &Opts::default());
                 let d = format!("{i}<-{j}");
-                let case = Case { h, phase: "structure", pos: d.clone(), field: "entries", kind: "transplant-worldline", detail: &d };
-                classify(acc, &case, &v, Mode::Structural);
+                job(m, false, false, d.clone(), "entries", "transplant-worldline", d.clone(), Mode::Structural);
                 // ... relabelled to the destination worldline (worldline ids of entry, head, parents)
                 let mut t = h.entries[j].clone();
                 let (src, dst) = (t.worldline_id, h.entries[i].worldline_id);
@@ -437,19 +437,11 @@ pub fn structural(acc: &mut Acc, h: &History, base: &Baseline, all: &[History], 
                         p.worldline_id = dst;
                     }
                 }
-                let mut m = h.entries.clone();
-                m[i] = t;
-                let v = verify::verify(
-                    h,
-                    base,
-                    &m,
-                    &Opts {
-                        allow_alt: true,
-                        ..Opts::default()
-                    },
-                );
-                let case = Case { h, phase: "structure", pos: d.clone(), field: "entries(relabelled)", kind: "transplant-worldline", detail: &d };
-                classify(acc, &case, &v, Mode::Substitution);
+                if t != h.entries[i] {
+                    let mut m = h.entries.clone();
+                    m[i] = t;
+                    job(m, true, false, d.clone(), "entries(relabelled)", "transplant-worldline", d, Mode::Substitution);
+                }
             }
         }
     }
@@ -474,18 +466,7 @@ pub fn structural(acc: &mut Acc, h: &History, base: &Baseline, all: &[History], 
                         any = true;
                         let mut m = h.entries.clone();
                         m[i] = d.clone();
-                        let v = verify::verify(
-                            h,
-                            base,
-                            &m,
-                            &Opts {
-                                allow_alt: true,
-                                ..Opts::default()
-                            },
-                        );
-                        let det = format!("{i}<-[{}]", donor.label);
-                        let case = Case { h, phase: "structure", pos: format!("{i}"), field: "entries", kind: "transplant-history", detail: &det };
-                        classify(acc, &case, &v, Mode::Substitution);
+                        job(m, true, false, format!("{i}"), "entries", "transplant-history", format!("{i}<-[{}]", donor.label), Mode::Substitution);
                     }
                 }
             }
@@ -494,116 +475,151 @@ pub fn structural(acc: &mut Acc, h: &History, base: &Baseline, all: &[History], 
             }
         }
     }
+    let verdicts: Vec<verify::Verdict> = jobs
+        .par_iter()
+        .map(|j| {
+            verify::verify(
+                h,
+                base,
+                &j.material,
+                &Opts {
+                    allow_alt: j.allow_alt,
+                    prefix_ok: j.prefix_ok,
+                    ..Opts::default()
+                },
+            )
+        })
+        .collect();
+    for (j, v) in jobs.iter().zip(verdicts) {
+        let case = Case { h, phase: "structure", pos: j.pos.clone(), field: j.field, kind: j.kind, detail: &j.detail };
+        classify(acc, &case, &v, j.mode);
+    }
 }
 
 // -------------------------------------------------------------------------------------------------
 // checkpoints
 // -------------------------------------------------------------------------------------------------
 
-fn checkpoint_case(
-    acc: &mut Acc,
-    h: &History,
-    base: &Baseline,
+struct CpJob {
     w: WorldlineId,
     target: WorldlineId,
     cp: ReplayCheckpoint,
-    field: &str,
+    field: &'static str,
     kind: &'static str,
     detail: String,
-    must_equal_original: bool,
-) {
-    acc.count("checkpoint_cases", 1);
-    let pos = format!("{}@{}", wl_tag(w), cp.checkpoint.worldline_tick.as_u64());
-    let case = Case { h, phase: "checkpoint", pos, field, kind, detail: &detail };
+    genuine: bool,
+}
+
+enum CpOut {
+    /// `add_checkpoint` admitted something that is not the chain's state at its coordinate.
+    AdmittedBad,
+    Verdict(verify::Verdict),
+}
+
+fn cp_eval(h: &History, base: &Baseline, j: &CpJob) -> CpOut {
     // 1. admission
     let admitted = mc::catch(|| {
         let mut p = verify::fresh_store(h);
         for e in &h.entries {
             verify::append_routed(&mut p, e, false).expect("untampered append");
         }
-        let r = p.add_checkpoint(target, cp.clone());
+        let r = p.add_checkpoint(j.target, j.cp.clone());
         (p, r)
     });
     let (p, res) = match admitted {
         Ok(x) => x,
         Err(msg) => {
-            let v = verify::Verdict { panic: Some(format!("checkpoint: {msg}")), ..Default::default() };
-            classify(acc, &case, &v, Mode::SingleField);
-            return;
+            return CpOut::Verdict(verify::Verdict {
+                panic: Some(format!("checkpoint: {msg}")),
+                ..Default::default()
+            })
         }
     };
-    if res.is_ok() {
+    if res.is_ok() && !j.genuine {
         // reference check: an admitted checkpoint is retained, verified material — it must be the
         // untampered state at its coordinate (state, root and recorded hash).
-        let t = cp.checkpoint.worldline_tick;
+        let t = j.cp.checkpoint.worldline_tick;
         let lookup = t.checked_increment().unwrap_or(t);
-        let stored = p.checkpoint_state_before(target, lookup);
-        let orig = base.per.get(&target).and_then(|b| b.get(t.as_u64() as usize));
+        let stored = p.checkpoint_state_before(j.target, lookup);
+        let orig = base.per.get(&j.target).and_then(|b| b.get(t.as_u64() as usize));
         let ok = match (&stored, orig) {
             (Some(s), Some(o)) => {
                 let got = verify::tick_res(&s.state, false);
                 s.checkpoint.worldline_tick == t
                     && s.checkpoint.state_hash == o.root
                     && got.root == o.root
-                    && (got.warp_fp == o.warp_fp)
+                    && got.warp_fp == o.warp_fp
             }
             _ => false,
         };
-        if !ok && !must_equal_original {
-            acc.evals += 1;
-            *acc.operators.entry(format!("checkpoint:{kind}")).or_insert(0) += 1;
-            acc.nontrivial.push(case.key());
-            acc.violation(
-                format!("checkpoint-admit:{field}:{kind}"),
-                json!({"case": case.json(), "extra": "add_checkpoint admitted a checkpoint that is not the chain's state at its coordinate"}),
-            );
-            acc.outcome("VIOLATION:checkpoint-admitted");
-            return;
+        if !ok {
+            return CpOut::AdmittedBad;
         }
     }
     // 2. uniform oracle with the checkpoint in the store
-    let v = verify::verify(
+    CpOut::Verdict(verify::verify(
         h,
         base,
         &h.entries,
         &Opts {
-            checkpoints: &[(target, cp)],
+            checkpoints: &[(j.target, j.cp.clone())],
             ..Opts::default()
         },
-    );
-    if must_equal_original {
-        // positive direction: a genuine checkpoint must be admitted and change nothing
-        acc.evals += 1;
-        acc.count("positive_checkpoints_verified", 1);
-        if v.panic.is_some() || !v.errors.is_empty() || !v.diffs.is_empty() {
+    ))
+}
+
+fn cp_record(acc: &mut Acc, h: &History, j: &CpJob, out: CpOut) {
+    acc.count("checkpoint_cases", 1);
+    let pos = format!("{}@{}", wl_tag(j.w), j.cp.checkpoint.worldline_tick.as_u64());
+    let case = Case { h, phase: "checkpoint", pos, field: j.field, kind: j.kind, detail: &j.detail };
+    match out {
+        CpOut::AdmittedBad => {
+            acc.evals += 1;
+            *acc.operators.entry(format!("checkpoint:{}", j.kind)).or_insert(0) += 1;
+            acc.nontrivial.push(case.key());
             acc.violation(
-                "positive:checkpoint:genuine-checkpoint-rejected-or-changes-results".to_owned(),
-                json!({"case": case.json(), "verdict": format!("{v:?}")}),
+                format!("checkpoint-admit:{}:{}", j.field, j.kind),
+                json!({"case": case.json(), "extra": "add_checkpoint admitted a checkpoint that is not the chain's state at its coordinate"}),
             );
+            acc.outcome("VIOLATION:checkpoint-admitted");
         }
-        return;
+        CpOut::Verdict(v) => {
+            if j.genuine {
+                // positive direction: a genuine checkpoint must be admitted and change nothing
+                acc.evals += 1;
+                acc.count("positive_checkpoints_verified", 1);
+                if v.panic.is_some() || !v.errors.is_empty() || !v.diffs.is_empty() {
+                    acc.violation(
+                        "positive:checkpoint:genuine-checkpoint-rejected-or-changes-results".to_owned(),
+                        json!({"case": case.json(), "verdict": format!("{v:?}")}),
+                    );
+                }
+            } else {
+                classify(acc, &case, &v, Mode::SingleField);
+            }
+        }
     }
-    classify(acc, &case, &v, Mode::SingleField);
 }
 
 pub fn checkpoints(acc: &mut Acc, h: &History, base: &Baseline, _prm: &Params) {
+    let mut jobs: Vec<CpJob> = Vec::new();
     for w in &h.worldlines {
         let states = &base.states[w];
         let len = states.len() - 1;
         for k in 0..=len {
             let good = ReplayCheckpoint::from_state(&states[k]);
-            checkpoint_case(acc, h, base, *w, *w, good.clone(), "genuine", "genuine", String::new(), true);
+            jobs.push(CpJob { w: *w, target: *w, cp: good.clone(), field: "genuine", kind: "genuine", detail: String::new(), genuine: true });
             // --- CheckpointRef fields ---
             let mut c = good.clone();
             c.checkpoint.worldline_tick = WorldlineTick::from_raw((k as u64).wrapping_add(1));
-            checkpoint_case(acc, h, base, *w, *w, c, "ref.worldline_tick", "inc", String::new(), false);
+            jobs.push(CpJob { w: *w, target: *w, cp: c, field: "ref.worldline_tick", kind: "inc", detail: String::new(), genuine: false });
             let mut c = good.clone();
             c.checkpoint.worldline_tick = WorldlineTick::from_raw((k as u64).wrapping_sub(1));
-            checkpoint_case(acc, h, base, *w, *w, c, "ref.worldline_tick", "dec", String::new(), false);
+            jobs.push(CpJob { w: *w, target: *w, cp: c, field: "ref.worldline_tick", kind: "dec", detail: String::new(), genuine: false });
             for b in [0usize, 31] {
                 let mut c = good.clone();
                 c.checkpoint.state_hash[b] ^= 1;
-                checkpoint_case(acc, h, base, *w, *w, c, "ref.state_hash", "flip", format!("b{b}"), false);
+                jobs.push(CpJob { w: *w, target: *w, cp: c, field: "ref.state_hash", kind: "flip", detail: format!("b{b}"), genuine: false });
             }
             // --- state substitutions (everything reachable through public APIs) ---
             for j in 0..=len {
@@ -611,28 +627,28 @@ pub fn checkpoints(acc: &mut Acc, h: &History, base: &Baseline, _prm: &Params) {
                     // state of another tick, self-consistent hash, labelled tick k
                     let mut c = ReplayCheckpoint::from_state(&states[j]);
                     c.checkpoint.worldline_tick = WorldlineTick::from_raw(k as u64);
-                    checkpoint_case(acc, h, base, *w, *w, c, "state(other-tick)+hash", "state", format!("state of tick {j}"), false);
+                    jobs.push(CpJob { w: *w, target: *w, cp: c, field: "state(other-tick)+hash", kind: "state", detail: format!("state of tick {j}"), genuine: false });
                     // state of another tick under the genuine ref
                     let c = ReplayCheckpoint { checkpoint: good.checkpoint, state: states[j].clone() };
-                    checkpoint_case(acc, h, base, *w, *w, c, "state(other-tick)", "state", format!("state of tick {j}"), false);
+                    jobs.push(CpJob { w: *w, target: *w, cp: c, field: "state(other-tick)", kind: "state", detail: format!("state of tick {j}"), genuine: false });
                 }
             }
             for w2 in &h.worldlines {
                 if w2 != w {
                     // genuine checkpoint offered to another worldline
-                    checkpoint_case(acc, h, base, *w, *w2, good.clone(), "worldline", "state", format!("offered to {}", wl_tag(*w2)), false);
+                    jobs.push(CpJob { w: *w, target: *w2, cp: good.clone(), field: "worldline", kind: "state", detail: format!("offered to {}", wl_tag(*w2)), genuine: false });
                 }
             }
             // fresh WorldlineState around the right warp state (no replay metadata)
             if let Ok(fresh) = WorldlineState::new(states[k].warp_state().clone(), *states[k].root()) {
                 let c = ReplayCheckpoint { checkpoint: good.checkpoint, state: fresh };
-                checkpoint_case(acc, h, base, *w, *w, c, "state(fresh-metadata)", "state", String::new(), false);
+                jobs.push(CpJob { w: *w, target: *w, cp: c, field: "state(fresh-metadata)", kind: "state", detail: String::new(), genuine: false });
             }
             // live frontier state (carries the committed-ingress ledger)
             if let Some(live) = h.live.get(w) {
                 if live.current_tick().as_u64() == k as u64 {
                     let c = ReplayCheckpoint { checkpoint: good.checkpoint, state: live.clone() };
-                    checkpoint_case(acc, h, base, *w, *w, c, "state(live-frontier)", "state", String::new(), false);
+                    jobs.push(CpJob { w: *w, target: *w, cp: c, field: "state(live-frontier)", kind: "state", detail: String::new(), genuine: false });
                 }
             }
             // cursor state after a FAILED seek: warp state advanced to k+1, replay metadata of k.
@@ -670,9 +686,9 @@ pub fn checkpoints(acc: &mut Acc, h: &History, base: &Baseline, _prm: &Params) {
                         let c = ReplayCheckpoint::from_state(&s);
                         let mut c1 = c.clone();
                         c1.checkpoint.worldline_tick = WorldlineTick::from_raw(k as u64);
-                        checkpoint_case(acc, h, base, *w, *w, c1, "state(after-failed-seek)+hash", "state", "warp state of k+1, metadata of k, self-consistent hash".to_owned(), false);
+                        jobs.push(CpJob { w: *w, target: *w, cp: c1, field: "state(after-failed-seek)+hash", kind: "state", detail: "warp state of k+1, metadata of k, self-consistent hash".to_owned(), genuine: false });
                         let c2 = ReplayCheckpoint { checkpoint: good.checkpoint, state: s };
-                        checkpoint_case(acc, h, base, *w, *w, c2, "state(after-failed-seek)", "state", "warp state of k+1, metadata of k, genuine ref".to_owned(), false);
+                        jobs.push(CpJob { w: *w, target: *w, cp: c2, field: "state(after-failed-seek)", kind: "state", detail: "warp state of k+1, metadata of k, genuine ref".to_owned(), genuine: false });
                     }
                 }
             }
@@ -695,10 +711,14 @@ pub fn checkpoints(acc: &mut Acc, h: &History, base: &Baseline, _prm: &Params) {
                 });
                 if let Ok(Ok(s)) = got {
                     let c = ReplayCheckpoint { checkpoint: good.checkpoint, state: s };
-                    checkpoint_case(acc, h, base, *w, *w, c, "state(last_materialization)", "state", "replayed from a store whose outputs were altered".to_owned(), false);
+                    jobs.push(CpJob { w: *w, target: *w, cp: c, field: "state(last_materialization)", kind: "state", detail: "replayed from a store whose outputs were altered".to_owned(), genuine: false });
                 }
             }
         }
+    }
+    let outs: Vec<CpOut> = jobs.par_iter().map(|j| cp_eval(h, base, j)).collect();
+    for (j, o) in jobs.iter().zip(outs) {
+        cp_record(acc, h, j, o);
     }
 }
 
@@ -713,30 +733,28 @@ pub fn btr_err_name(e: &BtrError) -> String {
     }
 }
 
-fn btr_case(
-    acc: &mut Acc,
-    h: &History,
+struct BtrJob {
     w: WorldlineId,
     range: (u64, u64),
-    rec: &BoundaryTransitionRecord,
-    field: &str,
+    rec: BoundaryTransitionRecord,
+    field: String,
     kind: &'static str,
     detail: String,
-) {
-    acc.count("btr_cases", 1);
-    acc.evals += 1;
-    *acc.operators.entry(format!("btr:{kind}")).or_insert(0) += 1;
-    let case = Case { h, phase: "btr", pos: format!("{}[{}..{})", wl_tag(w), range.0, range.1), field, kind, detail: &detail };
-    acc.nontrivial.push(case.key());
+}
+
+enum BtrOut {
+    Panic(String),
+    Rejected(String),
+    /// Accepted and equal to the authoritative segment it names (same range as the original?).
+    AcceptedGenuine { same_range: bool },
+    AcceptedDifferent,
+}
+
+fn btr_eval(h: &History, j: &BtrJob) -> BtrOut {
+    let rec = &j.rec;
     match mc::catch(|| h.prov.validate_btr(rec)) {
-        Err(msg) => {
-            acc.violation(format!("validate_btr-panic:{field}:{kind}"), json!({"case": case.json(), "panic": msg}));
-            acc.outcome("VIOLATION:panic");
-        }
-        Ok(Err(e)) => {
-            acc.outcome(&format!("typed_error:validate_btr:{}", btr_err_name(&e)));
-            acc.count("rejected_with_typed_error", 1);
-        }
+        Err(msg) => BtrOut::Panic(msg),
+        Ok(Err(e)) => BtrOut::Rejected(btr_err_name(&e)),
         Ok(Ok(())) => {
             // reference check: a validated record must carry exactly the authoritative segment
             let wl = rec.worldline_id;
@@ -758,23 +776,64 @@ fn btr_case(
             let want_out = rec.payload.entries.last().map(|e| e.expected.state_root);
             same = same && want_in == Some(rec.input_boundary_hash) && want_out == Some(rec.output_boundary_hash);
             if same {
-                let k = format!("btr:{field}:{kind}");
-                *acc.accepted_same.entry(k).or_insert(0) += 1;
-                acc.outcome("accepted_same_state");
-                acc.count("accepted_same_state", 1);
+                BtrOut::AcceptedGenuine {
+                    same_range: wl == j.w
+                        && start == j.range.0
+                        && start + rec.payload.entries.len() as u64 == j.range.1,
+                }
             } else {
-                acc.violation(
-                    format!("validate_btr:{field}:{kind}"),
-                    json!({"case": case.json(), "extra": "validate_btr accepted a record that differs from the authoritative segment"}),
-                );
-                acc.outcome("VIOLATION:different-result-accepted");
+                BtrOut::AcceptedDifferent
             }
+        }
+    }
+}
+
+fn btr_record(acc: &mut Acc, h: &History, j: &BtrJob, out: BtrOut) {
+    acc.count("btr_cases", 1);
+    acc.evals += 1;
+    *acc.operators.entry(format!("btr:{}", j.kind)).or_insert(0) += 1;
+    let case = Case {
+        h,
+        phase: "btr",
+        pos: format!("{}[{}..{})", wl_tag(j.w), j.range.0, j.range.1),
+        field: &j.field,
+        kind: j.kind,
+        detail: &j.detail,
+    };
+    acc.nontrivial.push(case.key());
+    match out {
+        BtrOut::Panic(msg) => {
+            acc.violation(format!("validate_btr-panic:{}:{}", j.field, j.kind), json!({"case": case.json(), "panic": msg}));
+            acc.outcome("VIOLATION:panic");
+        }
+        BtrOut::Rejected(name) => {
+            acc.outcome(&format!("typed_error:validate_btr:{name}"));
+            acc.count("rejected_with_typed_error", 1);
+        }
+        BtrOut::AcceptedGenuine { same_range: true } => {
+            let k = format!("btr:{}:{}", j.field, j.kind);
+            *acc.accepted_same.entry(k).or_insert(0) += 1;
+            acc.outcome("accepted_same_state");
+            acc.count("accepted_same_state", 1);
+        }
+        BtrOut::AcceptedGenuine { same_range: false } => {
+            // the altered record is itself a genuine record of another (sub-)segment
+            acc.outcome("accepted_genuine_subsegment");
+            acc.count("accepted_genuine_subsegment", 1);
+        }
+        BtrOut::AcceptedDifferent => {
+            acc.violation(
+                format!("validate_btr:{}:{}", j.field, j.kind),
+                json!({"case": case.json(), "extra": "validate_btr accepted a record that differs from the authoritative segment"}),
+            );
+            acc.outcome("VIOLATION:different-result-accepted");
         }
     }
 }
 
 pub fn btr(acc: &mut Acc, h: &History, _base: &Baseline, prm: &Params) {
     let ctx = entry_ctx(h);
+    let mut jobs: Vec<BtrJob> = Vec::new();
     for w in &h.worldlines {
         let len = h.prov.len(*w).unwrap_or(0);
         for s in 0..len {
@@ -791,9 +850,9 @@ pub fn btr(acc: &mut Acc, h: &History, _base: &Baseline, prm: &Params) {
                 };
                 acc.count("positive_btrs_built_and_validated", 1);
                 let range = (s, e);
-                let mut go = |acc: &mut Acc, field: &str, kind: &'static str, detail: String, r: BoundaryTransitionRecord| {
+                let mut go = |_acc: &mut Acc, field: &str, kind: &'static str, detail: String, r: BoundaryTransitionRecord| {
                     if r != rec {
-                        btr_case(acc, h, *w, range, &r, field, kind, detail);
+                        jobs.push(BtrJob { w: *w, range, rec: r, field: field.to_owned(), kind, detail });
                     }
                 };
                 for b in &prm.pos {
@@ -897,6 +956,10 @@ pub fn btr(acc: &mut Acc, h: &History, _base: &Baseline, prm: &Params) {
                 }
             }
         }
+    }
+    let outs: Vec<BtrOut> = jobs.par_iter().map(|j| btr_eval(h, j)).collect();
+    for (j, o) in jobs.iter().zip(outs) {
+        btr_record(acc, h, j, o);
     }
 }
 
@@ -1226,8 +1289,16 @@ pub fn suffix(acc: &mut Acc, h: &History, _base: &Baseline, prm: &Params) {
 // retained encoding: every single-bit flip of the WAL state-delta payload bytes
 // -------------------------------------------------------------------------------------------------
 
-pub fn retained(acc: &mut Acc, h: &History, base: &Baseline, _prm: &Params, r: &Report) {
+pub fn retained(acc: &mut Acc, h: &History, base: &Baseline, prm: &Params, r: &Report) {
+    // quick: two entries per selected history (the first one, and the first one whose receipt has a
+    // rejected candidate with a blocker list); thorough: every entry.
+    let first_conflict = h.entries.iter().position(|e| {
+        e.tick_receipt.as_ref().is_some_and(|r| (0..r.entries().len()).any(|i| !r.blocked_by(i).is_empty()))
+    });
     for (pos, e) in h.entries.iter().enumerate() {
+        if !prm.thorough && pos != 0 && Some(pos) != first_conflict {
+            continue;
+        }
         let Some(receipt) = e.tick_receipt.as_ref() else {
             continue;
         };
